@@ -161,11 +161,19 @@ def c13Run (c : Cfg) (exact : Bool) (tr : Trace) (anns : List CbEv) (world : Lis
 
 def lastEv (tr : Trace) : Option Ev := tr.getLast?.map (·.2)
 
-/-- exactly one on_close, and no callback after it -/
-def onceLast (tr : Trace) : List String :=
-  let ns := cbNames tr
-  (if ns.count .onClose = 1 then [] else [if ns.count .onClose = 0 then "on-close-once:never" else "on-close-once:repeated"]) ++
-  (if ns.count .onClose ≥ 1 && ns.getLast? ≠ some .onClose then ["on-close-last:callback-after-on-close"] else [])
+/-- exactly one on_close, and no callback after it.  When the user's on_close itself fails (its plan
+    says raise / KeyboardInterrupt) the report of that failure to on_error is its consequence, not a
+    further event of the run: only on_error calls may then follow. -/
+def onceLast (plan : Cb → List Act) (anns : List CbEv) : List String :=
+  let n := (anns.filter fun x => x.cb = .onClose).length
+  (if n = 1 then [] else [if n = 0 then "on-close-once:never" else "on-close-once:repeated"]) ++
+  (match anns.find? fun x => x.cb = .onClose with
+   | some o =>
+     let after := anns.filter fun (x : CbEv) => x.pos > o.pos && x.cb ≠ .onClose
+     let failed := actOf plan .onClose o.k = .raise || actOf plan .onClose o.k = .ki
+     if after.isEmpty || (failed && after.all fun x => x.cb = .onError) then []
+     else ["on-close-last:callback-after-on-close"]
+   | none => [])
 
 def live (tr : Trace) : Int :=
   tr.foldl (fun n te => match te.2 with
@@ -189,7 +197,9 @@ def otherCause (plan : Cb → List Act) (x : CbEv) : Bool :=
    | .onError, [.exn (.frame _)] => false
    | .onError, [.exn e] => !AExn.isUser e
    | _, _ => false) ||
-  (x.cb ≠ .onClose && (actOf plan x.cb x.k = .close || actOf plan x.cb x.k = .ki))
+  (x.cb ≠ .onClose && (actOf plan x.cb x.k = .close || actOf plan x.cb x.k = .ki)) ||
+  -- an on_error handler that itself raises: its exception propagates and ends the connection
+  (x.cb = .onError && actOf plan x.cb x.k = .raise)
 
 /-- arrival time and body of the close frame in a script (if it is the first terminator) -/
 def closeFrameOf : Nat → List TEv → Option (Nat × Bytes)
@@ -217,7 +227,10 @@ def c14Run (c : Cfg) (tr : Trace) (anns : List CbEv) (world : List Dial) : List 
     let before := match oc with
       | some o => anns.filter fun (x : CbEv) => x.pos < o.pos
       | none => anns
+    let ocPos := match oc with | some o => o.pos | none => tr.length
     let other := before.any (otherCause c.plan)
+    -- close() from a second thread racing with the server's close frame: either account of the end is right
+    let raced := (tr.take ocPos).any (fun te => te.2 = .closeCall)
     let endedByFrame := match cur, oc with
       | some (tc, _), some o => !other && decide (tc ≤ o.time)
       | _, _ => false
@@ -225,7 +238,7 @@ def c14Run (c : Cfg) (tr : Trace) (anns : List CbEv) (world : List Dial) : List 
       | some (_, body) => if endedByFrame then closeArgsOf body else [.none, .none]
       | none => [.none, .none]
     let vArgs := match oc with
-      | some o => if o.args = expArgs then [] else
+      | some o => if o.args = expArgs || (raced && o.args = [.none, .none]) then [] else
           [if endedByFrame then "close-args:close-frame-args-lost" else "close-args:args-without-close-frame"]
       | none => []
     let reported := tr.any fun te => isErrorReport te.2
@@ -236,15 +249,23 @@ def c14Run (c : Cfg) (tr : Trace) (anns : List CbEv) (world : List Dial) : List 
     let frameErr := tr.any fun te => match te.2 with
       | .cb .onError [.exn (.frame _)] => true
       | _ => false
+    let onErrFails := anns.any fun x => x.cb = .onError &&
+      (actOf c.plan .onError x.k = .raise || actOf c.plan .onError x.k = .ki)
+    let onCloseFails := anns.any fun x => x.cb = .onClose &&
+      (actOf c.plan .onClose x.k = .raise || actOf c.plan .onClose x.k = .ki)
     let vRet :=
-      if endedByFrame then
+      if onCloseFails then []              -- a failing on_close handler: outside the statement
+      else if endedByFrame && raced then (if internal then ["return-value:internal-error-reported"] else [])
+      else if endedByFrame then
         (if frameErr then ["return-value:close-frame-reported-as-error"] else []) ++
         (if b && !frameErr then ["return-value:true-after-close-frame"] else [])
       else if internal then ["return-value:internal-error-reported"]
+      else if !c.has .onError then []      -- nothing can be reported without an on_error handler
+      else if onErrFails then []           -- an on_error handler that itself fails: outside the statement
       else if b = reported then []
       else [if b then "return-value:true-without-error-report" else "return-value:false-despite-error-report"]
     let _ := appClosed
-    (if c.has .onClose then onceLast tr else []) ++ vArgs ++ vRet ++
+    (if c.has .onClose then onceLast c.plan anns else []) ++ vArgs ++ vRet ++
       (if live tr = 0 then [] else ["clean:transport-left"]) ++
       (if livePings tr = 0 then [] else ["clean:ping-thread-left"])
   | _ => []
